@@ -67,8 +67,8 @@ func init() {
 // inputs
 
 type runnerSpec struct {
-	B    string `json:"b"`              // free | oncancel
-	R    *int   `json:"r,omitempty"`    // nil = nil; 0 = context.Canceled; 1..9 = sentinel
+	B    string `json:"b"`              // free | oncancel | ctxerr (returns ctx.Err() once its context is done)
+	R    *int   `json:"r,omitempty"`    // nil = nil; 0 = context.Canceled; 1..9 = sentinel (ignored for ctxerr)
 	Wrap bool   `json:"wrap,omitempty"` // Canceled wrapped with %w
 }
 
@@ -87,6 +87,7 @@ type actSpec struct {
 type c12Input struct {
 	Kind    string       `json:"kind"` // mgr | plain | stress
 	Grace   bool         `json:"grace,omitempty"`
+	Ctx     string       `json:"ctx,omitempty"` // how "pcancel" ends the context given to Run: cancel (default) | deadline | cause
 	Runners []runnerSpec `json:"runners,omitempty"`
 	Closers []closerSpec `json:"closers,omitempty"`
 	Script  []actSpec    `json:"script,omitempty"`
@@ -118,6 +119,8 @@ func code(err error) int64 {
 		return -2
 	case errors.Is(err, context.Canceled):
 		return 0
+	case errors.Is(err, context.DeadlineExceeded):
+		return -3
 	}
 	for k := 1; k < len(sentinels); k++ {
 		if errors.Is(err, sentinels[k]) {
@@ -177,13 +180,6 @@ func (r *record) stamp(o obsRec) {
 
 // waitFor blocks until pred holds on the record (evaluated under the mutex) or the deadline passes.
 func (r *record) waitFor(pred func(seq []obsRec) bool) bool {
-	if timeouts.Load() >= maxTimeouts {
-		// the run has already seen several liveness failures (and will be reported): do not
-		// spend waitDeadline on every further wait
-		r.mu.Lock()
-		defer r.mu.Unlock()
-		return pred(r.seq)
-	}
 	deadline := time.Now().Add(waitDeadline)
 	stop := make(chan struct{})
 	defer close(stop)
@@ -242,6 +238,9 @@ func coqOptZ(r *int) string {
 }
 
 func coqBeh(s runnerSpec) string {
+	if s.B == "ctxerr" {
+		return "CtxErr"
+	}
 	if s.B == "oncancel" {
 		return "OnCancel " + coqOptZ(s.R)
 	}
@@ -289,7 +288,7 @@ func (a actSpec) coq() string {
 	case "ret":
 		return fmt.Sprintf("SReturnRunner %d", a.I)
 	case "pcancel":
-		return "SParentCancel"
+		return "SParentCancel " + hx.CoqZ(int64(a.I))
 	case "close":
 		return "SClose"
 	case "addcloser":
@@ -306,6 +305,49 @@ func (a actSpec) coq() string {
 
 // ---------------------------------------------------------------------------------------
 // scripted scenario
+
+// endCtx is a context the script ends at a moment of its choosing with an error of its choosing
+// (context.DeadlineExceeded without waiting for a real deadline).
+type endCtx struct {
+	done chan struct{}
+	mu   sync.Mutex
+	err  error
+}
+
+func (c *endCtx) Deadline() (time.Time, bool) { return time.Time{}, false }
+func (c *endCtx) Done() <-chan struct{}       { return c.done }
+func (c *endCtx) Value(any) any               { return nil }
+func (c *endCtx) Err() error {
+	c.mu.Lock()
+	defer c.mu.Unlock()
+	return c.err
+}
+
+func (c *endCtx) end(err error) {
+	c.mu.Lock()
+	if c.err == nil {
+		c.err = err
+		close(c.done)
+	}
+	c.mu.Unlock()
+}
+
+// parentCtx builds the context given to Run and the function that ends it; code = what Err()
+// reports afterwards (0 Canceled, -3 DeadlineExceeded).
+func parentCtx(kind string) (ctx context.Context, end func(), code int) {
+	switch kind {
+	case "", "cancel":
+		c, cancel := context.WithCancel(context.Background())
+		return c, cancel, 0
+	case "cause":
+		c, cancel := context.WithCancelCause(context.Background())
+		return c, func() { cancel(sentinels[9]) }, 0
+	case "deadline":
+		c := &endCtx{done: make(chan struct{})}
+		return c, func() { c.end(context.DeadlineExceeded) }, -3
+	}
+	panic("c12: bad ctx kind " + kind)
+}
 
 type ioCloser struct{ f func() error }
 
@@ -336,6 +378,21 @@ func (s *scen) runnerFn(i int) concurrency.Runner {
 	spec := s.rspec[i]
 	return func(ctx context.Context) error {
 		s.rec.stamp(obsRec{K: "rstart", I: i})
+		if spec.B == "ctxerr" {
+			select {
+			case <-ctx.Done():
+				s.rec.stamp(obsRec{K: "rseen", I: i})
+			case <-s.abort:
+				return nil
+			}
+			err := ctx.Err()
+			var r *int
+			if err != nil {
+				r = intp(int(code(err)))
+			}
+			s.rec.stamp(obsRec{K: "rret", I: i, R: r})
+			return err
+		}
 		if spec.B == "oncancel" {
 			select {
 			case <-ctx.Done():
@@ -413,7 +470,7 @@ func (s *scen) quiesce(closer bool) {
 	known := s.knownRunners()
 	cause := s.parentDone || (closer && s.closeCalls > 0 && len(known) > 0)
 	for _, i := range known {
-		if s.rspec[i].B != "oncancel" && s.toldR[i] {
+		if s.rspec[i].B == "free" && s.toldR[i] {
 			cause = true
 		}
 	}
@@ -421,7 +478,7 @@ func (s *scen) quiesce(closer bool) {
 	for _, i := range known {
 		i := i
 		switch {
-		case s.rspec[i].B == "oncancel":
+		case s.rspec[i].B != "free":
 			if cause {
 				s.rec.waitFor(func(seq []obsRec) bool { return has(seq, "rret", i) })
 			} else {
@@ -461,6 +518,12 @@ func (s *scen) quiesce(closer bool) {
 func intp(v int) *int { return &v }
 
 func runScenario(ctx *core.Ctx, in c12Input) {
+	if timeouts.Load() >= maxTimeouts {
+		// several liveness failures have been recorded (and will be reported): later scenarios
+		// would only add waiting time, or - with goroutines of the hung ones still around - noise
+		ctx.Sink.Count("skipped_after_liveness_timeouts")
+		return
+	}
 	closer := in.Kind == "mgr"
 	s := &scen{in: in, rec: newRecord(), abort: make(chan struct{}), toldR: map[int]bool{},
 		toldC: map[int]bool{}, registered: map[int]bool{}, addedR: map[int]bool{}}
@@ -493,7 +556,7 @@ func runScenario(ctx *core.Ctx, in c12Input) {
 	} else {
 		plain = concurrency.NewRunnerManager(runners...)
 	}
-	pctx, pcancel := context.WithCancel(context.Background())
+	pctx, pcancel, pcode := parentCtx(in.Ctx)
 	defer pcancel()
 
 	script := make([]string, 0, len(in.Script))
@@ -528,7 +591,7 @@ func runScenario(ctx *core.Ctx, in c12Input) {
 				s.rec.waitFor(func(seq []obsRec) bool { return has(seq, "runret", k) })
 			}
 		case "ret":
-			if a.I < 0 || a.I >= len(s.rspec) || s.rspec[a.I].B == "oncancel" || s.toldR[a.I] {
+			if a.I < 0 || a.I >= len(s.rspec) || s.rspec[a.I].B != "free" || s.toldR[a.I] {
 				panic("c12: bad ret action")
 			}
 			i := a.I
@@ -540,6 +603,7 @@ func runScenario(ctx *core.Ctx, in c12Input) {
 			s.rec.stamp(obsRec{K: "pcancel"})
 			pcancel()
 			s.parentDone = true
+			a.I = pcode
 		case "close":
 			c := s.closeCalls
 			s.closeCalls++
@@ -568,7 +632,12 @@ func runScenario(ctx *core.Ctx, in c12Input) {
 			s.rec.stamp(obsRec{K: "addcloser", I: j, OK: err == nil})
 		case "add":
 			i := s.newRunner(*a.N)
-			err := plain.Add(s.runnerFn(i))
+			var err error
+			if closer {
+				err = mgr.Add(s.runnerFn(i))
+			} else {
+				err = plain.Add(s.runnerFn(i))
+			}
 			if err == nil {
 				s.addedR[i] = true
 			}
@@ -965,6 +1034,10 @@ func randRunners(r *hx.Rand, n int, kinds int) []runnerSpec {
 		out[i] = runnerSpec{B: "free", R: randResult(r, true)}
 		if kinds&(1<<i) != 0 {
 			out[i].B = "oncancel"
+			if r.Chance(1, 3) {
+				out[i].B = "ctxerr"
+				out[i].R = nil
+			}
 		}
 		if out[i].R != nil && *out[i].R == 0 {
 			out[i].Wrap = r.Bool()
@@ -1000,19 +1073,28 @@ func randCloser(r *hx.Rand) closerSpec {
 //	10 grace elapses after everything (no fatal)
 //	11 two Close calls: one during the run, one during shutdown, plus one after
 //	12 AddCloser before Run
-const nExtras = 13
+//	13 Add during the run (refused)
+const nExtras = 14
 
 // mgrScript builds a complete script: Run; the free runners return in order rperm (if there is
 // none, or extra 8, the parent context is cancelled; Close also cancels); the closers return in
 // order cperm; extras inserted.
-func mgrScript(r *hx.Rand, in *c12Input, rperm, cperm []int, extra, p int) {
+//
+// all = the whole runner set; the first ncons are given to the constructor, the others are
+// registered through Add before Run (ids follow the order of registration).
+func mgrScript(r *hx.Rand, in *c12Input, all []runnerSpec, ncons int, rperm, cperm []int, extra, p int) {
 	var sc []actSpec
 	add := func(a actSpec) { sc = append(sc, a) }
 	nOn := 0
-	for _, rs := range in.Runners {
-		if rs.B == "oncancel" {
+	for _, rs := range all {
+		if rs.B != "free" {
 			nOn++
 		}
+	}
+	in.Runners = append([]runnerSpec(nil), all[:ncons]...)
+	for i := ncons; i < len(all); i++ {
+		n := all[i]
+		add(actSpec{A: "add", N: &n})
 	}
 	ncl := len(in.Closers)
 	cperm = append([]int(nil), cperm...)
@@ -1028,6 +1110,10 @@ func mgrScript(r *hx.Rand, in *c12Input, rperm, cperm []int, extra, p int) {
 			c := randCloser(r)
 			add(actSpec{A: "addcloser", C: &c})
 		}
+		if r.Bool() {
+			n := runnerSpec{B: "free"}
+			add(actSpec{A: "add", N: &n}) // after Close: refused
+		}
 		add(actSpec{A: "run"})
 		if r.Bool() {
 			add(actSpec{A: "close"})
@@ -1042,9 +1128,12 @@ func mgrScript(r *hx.Rand, in *c12Input, rperm, cperm []int, extra, p int) {
 			switch extra {
 			case 2, 11:
 				add(actSpec{A: "close"})
-				if len(in.Runners) > 0 {
+				if len(all) > 0 {
 					cancelled = true
 				}
+			case 13:
+				n := runnerSpec{B: "oncancel", R: randResult(r, true)}
+				add(actSpec{A: "add", N: &n})
 			case 5:
 				add(actSpec{A: "run"})
 			case 6:
@@ -1106,7 +1195,7 @@ func mgrScript(r *hx.Rand, in *c12Input, rperm, cperm []int, extra, p int) {
 func freeRunners(rs []runnerSpec) []int {
 	var out []int
 	for i, r := range rs {
-		if r.B != "oncancel" {
+		if r.B == "free" {
 			out = append(out, i)
 		}
 	}
@@ -1157,14 +1246,20 @@ func genMgr(ctx *core.Ctx) {
 							if ctx.Thorough {
 								extra = k
 							}
-							in := c12Input{Kind: "mgr", Grace: r.Bool(), Runners: randRunners(r, nr, kinds)}
+							in := c12Input{Kind: "mgr", Grace: r.Bool(), Ctx: []string{"cancel", "deadline", "cause"}[r.Intn(3)]}
 							if extra == 9 {
 								in.Grace = true
 							}
 							for j := 0; j < nc; j++ {
 								in.Closers = append(in.Closers, randCloser(r))
 							}
-							mgrScript(r, &in, rperms[ri], cperms[ci], extra, r.Intn(6))
+							all := randRunners(r, nr, kinds)
+							ncons := nr
+							if r.Chance(2, 3) {
+								ncons = r.Intn(nr + 1)
+							}
+							mgrScript(r, &in, all, ncons, rperms[ri], cperms[ci], extra, r.Intn(6))
+							ctx.Sink.Count(fmt.Sprintf("mgr/runners_via_Add=%d", nr-ncons))
 							c12Run(ctx, in)
 							ctx.Sink.Count(fmt.Sprintf("mgr/extra=%d", extra))
 						}
@@ -1189,7 +1284,7 @@ func genPlain(ctx *core.Ctx) {
 					if timeouts.Load() >= maxTimeouts {
 						return
 					}
-					in := c12Input{Kind: "plain", Runners: randRunners(r, nr, kinds)}
+					in := c12Input{Kind: "plain", Runners: randRunners(r, nr, kinds), Ctx: []string{"cancel", "deadline", "cause"}[r.Intn(3)]}
 					var sc []actSpec
 					extra := r.Intn(6)
 					p := r.Intn(len(rperm) + 1)
@@ -1242,6 +1337,118 @@ func genPlain(ctx *core.Ctx) {
 	}
 }
 
+// genSeams: the ways a run can be ENDED from outside x the ways the manager was ASSEMBLED, on small
+// sets, systematically: 1..3 runners that all wait for their context (returning nil / their own
+// error / Canceled / ctx.Err()), EVERY split of them between the constructor and Add, 0..1 closers
+// registered through AddCloser, ended by Close during Run / by the caller's context being
+// cancelled, cancelled with a cause, or passing its deadline - during Run or before it.
+func genSeams(ctx *core.Ctx) {
+	r := ctx.R
+	endings := []string{"close", "cancel", "deadline", "cause", "deadline-before", "cancel-before"}
+	for nr := 1; nr <= 3; nr++ {
+		for ncons := 0; ncons <= nr; ncons++ {
+			for _, ending := range endings {
+				for rk := 0; rk < 4; rk++ {
+					for nc := 0; nc <= 1; nc++ {
+						if timeouts.Load() >= maxTimeouts {
+							return
+						}
+						all := make([]runnerSpec, nr)
+						for i := range all {
+							switch (rk + i) % 4 {
+							case 0:
+								all[i] = runnerSpec{B: "oncancel"}
+							case 1:
+								all[i] = runnerSpec{B: "oncancel", R: intp(1 + r.Intn(9))}
+							case 2:
+								all[i] = runnerSpec{B: "ctxerr"}
+							default:
+								all[i] = runnerSpec{B: "oncancel", R: intp(0), Wrap: r.Bool()}
+							}
+						}
+						in := c12Input{Kind: "mgr", Grace: r.Bool(), Runners: all[:ncons]}
+						var sc []actSpec
+						for i := ncons; i < nr; i++ {
+							n := all[i]
+							sc = append(sc, actSpec{A: "add", N: &n})
+						}
+						for j := 0; j < nc; j++ {
+							c := randCloser(r)
+							sc = append(sc, actSpec{A: "addcloser", C: &c})
+						}
+						before := strings.HasSuffix(ending, "-before")
+						kind := strings.TrimSuffix(ending, "-before")
+						if kind != "close" {
+							in.Ctx = kind
+						}
+						if before {
+							sc = append(sc, actSpec{A: "pcancel"})
+						}
+						sc = append(sc, actSpec{A: "run"})
+						if !before {
+							if kind == "close" {
+								sc = append(sc, actSpec{A: "close"})
+							} else {
+								sc = append(sc, actSpec{A: "pcancel"})
+							}
+						}
+						for j := 0; j < nc; j++ {
+							sc = append(sc, actSpec{A: "cret", I: j})
+						}
+						sc = append(sc, actSpec{A: "close"})
+						in.Script = sc
+						c12Run(ctx, in)
+						ctx.Sink.Count("seam/ending=" + ending)
+						ctx.Sink.Count(fmt.Sprintf("seam/constructor=%d/added=%d", ncons, nr-ncons))
+					}
+				}
+			}
+		}
+	}
+}
+
+// genDegenerate: the "nothing to do" inputs, each with a second Run / a late Add / Close calls after
+// it: no runner at all (bare manager and closer manager, with and without closers and grace
+// period), a context that is already over, a single runner.
+func genDegenerate(ctx *core.Ctx) {
+	r := ctx.R
+	free := runnerSpec{B: "free"}
+	for _, kind := range []string{"cancel", "deadline"} {
+		for pre := 0; pre < 2; pre++ {
+			var sc []actSpec
+			if pre == 1 {
+				sc = append(sc, actSpec{A: "pcancel"})
+			}
+			n := free
+			c12Run(ctx, c12Input{Kind: "plain", Ctx: kind, Script: append(append([]actSpec(nil), sc...),
+				actSpec{A: "run"}, actSpec{A: "run"}, actSpec{A: "add", N: &n}, actSpec{A: "run"})})
+			c12Run(ctx, c12Input{Kind: "plain", Ctx: kind, Runners: []runnerSpec{{B: "ctxerr"}},
+				Script: append(append([]actSpec(nil), sc...), actSpec{A: "run"}, actSpec{A: "run"}, actSpec{A: "pcancel"}, actSpec{A: "run"})})
+			for nc := 0; nc <= 1; nc++ {
+				for g := 0; g < 2; g++ {
+					in := c12Input{Kind: "mgr", Ctx: kind, Grace: g == 1}
+					s2 := append([]actSpec(nil), sc...)
+					for j := 0; j < nc; j++ {
+						c := randCloser(r)
+						in.Closers = append(in.Closers, c)
+					}
+					s2 = append(s2, actSpec{A: "run"}, actSpec{A: "run"})
+					for j := 0; j < nc; j++ {
+						s2 = append(s2, actSpec{A: "cret", I: j})
+					}
+					n2 := free
+					c2 := randCloser(r)
+					s2 = append(s2, actSpec{A: "run"}, actSpec{A: "add", N: &n2}, actSpec{A: "addcloser", C: &c2},
+						actSpec{A: "close"}, actSpec{A: "close"})
+					in.Script = s2
+					c12Run(ctx, in)
+				}
+			}
+		}
+	}
+	ctx.Sink.Count("family/degenerate")
+}
+
 func c12Gen(ctx *core.Ctx) {
 	r := ctx.R
 	// stress bursts first (their goroutines are gone before the scripted scenarios start)
@@ -1262,6 +1469,8 @@ func c12Gen(ctx *core.Ctx) {
 			runStress(ctx, c12Input{Kind: "stress", Stress: s.kind, Reps: reps / chunks, Seed: int64(r.U64() >> 1)})
 		}
 	}
+	genDegenerate(ctx)
+	genSeams(ctx)
 	genPlain(ctx)
 	genMgr(ctx)
 	ctx.Sink.Extra["liveness_timeouts"] = timeouts.Load()
